@@ -136,6 +136,8 @@ pub fn replay(path: &str) -> i32 {
             Decoded::Err(e) => println!("real: Err({e})"),
             Decoded::Panic(p) => println!("real: PANIC {p}"),
         }
+    } else if input.starts_with("prop=") {
+        return crate::e2::replay_history(input);
     } else {
         println!("(non-frame input: re-run the owning check to replay) input={input}");
     }
